@@ -1064,16 +1064,33 @@ pub fn run_c14(rep: &mut Report) {
                 }
             }
         }
-        // thorough: the ABA shape with exactly 2^32 changes, and 2^32 presses of two alternating keys (both streamed, own threads)
-        if rep.thorough() {
+        // the ABA shape with exactly 2^k changes for every k (quick: 9..26, thorough: 9..32), and – thorough – 2^32 presses of two
+        // alternating keys (all streamed, own threads)
+        {
             use crate::mon_through::{big_aba, BIG_COMBOS};
+            let kmax: u32 = if light() { 17 } else if rep.thorough() { 32 } else { 26 };
             let n: u64 = 1 << 32;
             let mut hs = Vec::new();
             for (c, (tog, alt, last)) in BIG_COMBOS.iter().enumerate() {
                 let (tog, alt, last) = (*tog, *alt, *last);
-                hs.push((c, std::thread::spawn(move || guarded(|| big_aba(AdvLayout, KeyCode::A, tog, alt, last, n)))));
+                hs.push((
+                    c,
+                    std::thread::spawn(move || {
+                        let mut all = Vec::new();
+                        for k in 9..=kmax {
+                            if let Ok(obs) = guarded(|| big_aba(AdvLayout, KeyCode::A, tog, alt, last, 1u64 << k)) {
+                                all.push((k, obs));
+                            }
+                        }
+                        all
+                    }),
+                ));
             }
+            let thorough = rep.thorough();
             let soak = std::thread::spawn(move || {
+                if !thorough {
+                    return Ok(None);
+                }
                 guarded(|| {
                     let direct = AdvLayout;
                     let mut kb = Keyboard::new(ScancodeSet2::new(), AdvLayout, HandleControl::MapLettersToUnicode);
@@ -1089,25 +1106,25 @@ pub fn run_c14(rep: &mut Report) {
                 })
             });
             for (c, h) in hs {
-                if let Ok(Ok(obs)) = h.join() {
-                    rep.count("aba_2_32_histories_over_a_user_layout", 1);
+                for (k, obs) in h.join().unwrap_or_default() {
+                    rep.count("aba_2^k_histories_over_a_user_layout", 1);
                     for o in obs {
                         adv += 1;
                         let want = AdvLayout.map_keycode(KeyCode::A, &o.pre, o.mode);
                         if o.got != Some(want.clone()) {
                             rep.violate(
-                                format!("C14|user-layout|key=A|after-ops=2^32|want={}|got={}", dk_str(&want), odk_str(&o.got)),
+                                format!("C14|user-layout|key=A|after-ops=2^k|want={}|got={}", dk_str(&want), odk_str(&o.got)),
                                 format!(
-                                    "Keyboard over a user-defined layout, 2^32-change history #{} ({:?} … then {:?}), press '{}': returned {}, but the installed layout returns {} under the reported modifiers {}",
-                                    c, BIG_COMBOS[c].0, BIG_COMBOS[c].2, o.step, odk_str(&o.got), dk_str(&want), mods_str(bits_from_mods(&o.pre))
+                                    "Keyboard over a user-defined layout, history with exactly 2^{} changes (#{}: {:?} … then {:?}), press '{}': returned {}, but the installed layout returns {} under the reported modifiers {}",
+                                    k, c, BIG_COMBOS[c].0, BIG_COMBOS[c].2, o.step, odk_str(&o.got), dk_str(&want), mods_str(bits_from_mods(&o.pre))
                                 ),
-                                J::obj().with("kind", J::s("aba-2^32")).with("layout", J::s("AdvLayout")).with("combo", J::u(c as u64)).with("step", J::s(o.step)),
+                                J::obj().with("kind", J::s("aba-2^k")).with("k", J::u(k as u64)).with("layout", J::s("AdvLayout")).with("combo", J::u(c as u64)).with("step", J::s(o.step)),
                             );
                         }
                     }
                 }
             }
-            if let Ok(Ok(r)) = soak.join() {
+            if let (true, Ok(Ok(r))) = (thorough, soak.join()) {
                 rep.count("alternating_presses_without_release_in_one_2_32_soak", n + 1000);
                 adv += n + 1000;
                 if let Some((i, k, got, want, m)) = r {
@@ -1115,6 +1132,29 @@ pub fn run_c14(rep: &mut Report) {
                         format!("C14|user-layout|key={:?}|after-ops=2^32-soak|want={}|got={}", k, dk_str(&want), odk_str(&got)),
                         format!("Keyboard over a user-defined layout: press #{} of A/B pressed alternately without release returned {}, the layout returns {} (modifiers {})", i, odk_str(&got), dk_str(&want), mods_str(m)),
                         J::obj().with("kind", J::s("soak-2^32")).with("presses", J::u(i)),
+                    );
+                }
+            }
+        }
+        // collision-guided pairs (mon_through::leaf_collision_pairs): the second press of each pair against a direct call
+        {
+            let li = (rep.seed as usize) % 10;
+            let (obs, fingerprinted, pairs) = crate::mon_through::leaf_collision_pairs(li, &uni);
+            rep.count("presses_fingerprinted_by_the_fields_of_the_rendering", fingerprinted);
+            rep.count("pairs_of_presses_that_leave_a_field_equal_pressed_back_to_back", pairs);
+            let direct = bare_dyn(li);
+            for o in obs {
+                compared += 1;
+                let (ki, _, mode) = o.second;
+                let want = direct.map_keycode(uni[ki], &o.pre, MODES[mode]);
+                if o.got != Some(want.clone()) {
+                    rep.violate(
+                        format!("C14|shipped-layout|{}|key={:?}|want={}|got={}", LAYOUT_NAMES[li], uni[ki], dk_str(&want), odk_str(&o.got)),
+                        format!(
+                            "Keyboard<{}, _>: after a press of {:?} with {} (mode {}) and modifier events only, the press of {:?} returned {}, but the installed layout returns {} for that key under the reported modifiers {} and mode {}",
+                            LAYOUT_NAMES[li], uni[o.first.0], mods_str(o.first.1), mode_str(MODES[o.first.2]), uni[ki], odk_str(&o.got), dk_str(&want), mods_str(bits_from_mods(&o.pre)), mode_str(MODES[mode])
+                        ),
+                        J::obj().with("kind", J::s("collision-pair")).with("layout", J::s(LAYOUT_NAMES[li])).with("first", J::s(format!("{:?} {} {}", uni[o.first.0], mods_str(o.first.1), mode_str(MODES[o.first.2])))).with("second", J::s(format!("{:?} {} {}", uni[ki], mods_str(bits_from_mods(&o.pre)), mode_str(MODES[mode])))),
                     );
                 }
             }
